@@ -254,6 +254,50 @@ func (bs *blockState) applyContractX(spec *FuncSpec, key string, args []Val, ins
 			post.Vars[spec.Results[0].Name] = res
 		}
 	}
+	if spec.Applies != "" {
+		// higher-order dependency (DESIGN 3.5): the closure argument runs exactly once, here
+		var carg Val
+		found := false
+		for i, p := range spec.Params {
+			if p.Name == spec.Applies {
+				carg, found = args[i], true
+			}
+		}
+		mc, ok := e.closureOf[carg.C[0]]
+		if !found || !ok {
+			unsupp("call of %s: the function argument is not a closure defined here", key)
+		}
+		cfn := mc.Fn.(*ssa.Function)
+		var cargs []Val
+		for _, p := range cfn.Params {
+			v := e.freshVal("hof."+p.Name(), p.Type())
+			e.assume(bs.g, e.typeFacts(v))
+			if _, isPtr := p.Type().Underlying().(*types.Pointer); isPtr {
+				e.assume(bs.g, and(app("<", "0", v.C[0]), app("<", v.C[0], e.heapKey(bs.st, "alloc", SInt))))
+			}
+			cargs = append(cargs, v)
+		}
+		saved := map[string]string{}
+		for _, g := range spec.Rollback {
+			for _, ks := range e.resolveModifies("ghost." + g) {
+				saved[ks[0]] = e.heapKey(bs.st, ks[0], ks[1])
+			}
+		}
+		var crt types.Type
+		if cfn.Signature.Results().Len() == 1 {
+			crt = cfn.Signature.Results().At(0).Type()
+		}
+		cres := bs.applyClosure(mc, cargs, ins, crt, nil)
+		if crt != nil && resT != nil && len(cres.C) == len(res.C) {
+			bs.assumeG(valEq(res, cres))
+			for k, old := range saved {
+				cur := bs.st.m[k]
+				nv := e.fresh("rb."+k, e.sortOfKey(k))
+				e.def(eq(nv, ite(eq(cres.C[0], "0"), cur, old)))
+				bs.st.m[k] = nv
+			}
+		}
+	}
 	if spec.MayPanic {
 		// exceptional outcome
 		p := e.fresh("panicked."+short, SBool)
